@@ -258,3 +258,74 @@ def renderGetConfig (c : TCfg) : List Ev :=
   .start (rpcTag c) :: .start (dataTag c) :: (renderData c ++ [.end "rpc-reply", .eof])
 
 end Xml
+
+namespace Xml
+open Policy (Range Fam Str)
+
+/-! ### hypotheses on the library oracles and on the text encoding
+Both are stated relative to the configuration (the texts that occur in it), so that they can be
+checked for a concrete oracle / encoding and configuration by evaluation. -/
+
+/-- the strings the reader compares: term name, trimmed family -/
+def TTerm.strings (t : TTerm) : List String :=
+  t.name :: (match t.family with | some f => [trim f] | none => [])
+
+def TPolicy.strings (p : TPolicy) : List String := p.name :: p.terms.flatMap TTerm.strings
+
+/-- all strings the reader compares with each other on this configuration -/
+def TCfg.strings (c : TCfg) : List String := "inet" :: "inet6" :: c.flatMap TPolicy.strings
+
+def TCfg.ranges (c : TCfg) : List Range := c.flatMap fun p => p.terms.flatMap (·.filters)
+
+def TCfg.families (c : TCfg) : List String := c.flatMap fun p => p.terms.filterMap (·.family)
+
+instance Fam.decForall (P : Fam → Prop) [DecidablePred P] : Decidable (∀ f, P f) :=
+  decidable_of_iff (P .v4 ∧ P .v6)
+    ⟨fun h f => by cases f; exact h.1; exact h.2, fun h => ⟨h _, h _⟩⟩
+
+/-- the library oracles behave on the texts of route-filter `r` as the abstract model
+(`Policy.readRange`) assumes of generic-ip: `Prefix<A>::from_str` accepts exactly an address of its
+own family with a length within the family's width, and masks the host bits;
+`PrefixLength<A>::from_str` accepts `/n` for `n` up to the family's width. -/
+structure RangeOK (o : IOracle) (r : Range) : Prop where
+  pfx : ∀ f : Fam, o.parsePrefix f (trim (prefixS r.v6 r.addr r.len))
+      = if r.v6 = f.isV6 ∧ r.len ≤ f.bits ∧ r.addr < 2 ^ f.bits
+        then some (r.addr - r.addr % 2 ^ (f.bits - r.len), r.len) else none
+  lo : ∀ f : Fam, o.parseLen f (lenS r.lo) = if r.lo ≤ f.bits then some r.lo else none
+  hi : ∀ f : Fam, o.parseLen f (lenS r.hi) = if r.hi ≤ f.bits then some r.hi else none
+
+instance (o : IOracle) (r : Range) : Decidable (RangeOK o r) :=
+  decidable_of_iff
+    ((∀ f : Fam, o.parsePrefix f (trim (prefixS r.v6 r.addr r.len))
+        = if r.v6 = f.isV6 ∧ r.len ≤ f.bits ∧ r.addr < 2 ^ f.bits
+          then some (r.addr - r.addr % 2 ^ (f.bits - r.len), r.len) else none) ∧
+     (∀ f : Fam, o.parseLen f (lenS r.lo) = if r.lo ≤ f.bits then some r.lo else none) ∧
+     (∀ f : Fam, o.parseLen f (lenS r.hi) = if r.hi ≤ f.bits then some r.hi else none))
+    ⟨fun ⟨a, b, c⟩ => ⟨a, b, c⟩, fun h => ⟨h.pfx, h.lo, h.hi⟩⟩
+
+/-- `unescape` undoes the escaping (of every text); the address oracles are right on the
+route-filters of the configuration -/
+structure IOracle.Consistent (o : IOracle) (c : TCfg) : Prop where
+  unescape : ∀ s, o.unescape (escS s) = some s
+  ranges : ∀ r ∈ c.ranges, RangeOK o r
+
+/-- `enc` is a faithful encoding of the configuration's texts as byte strings (UTF-8): injective on
+the strings the reader compares, the two family names are the byte strings the abstract model calls
+`inet` / `inet6`, and `str::trim` of a family value is `Policy.trimB` -/
+structure EncOK (enc : String → Str) (c : TCfg) : Prop where
+  inj : ∀ a ∈ c.strings, ∀ b ∈ c.strings, enc a = enc b → a = b
+  inet : enc "inet" = Policy.inet
+  inet6 : enc "inet6" = Policy.inet6
+  trim : ∀ f ∈ c.families, enc (trim f) = Policy.trimB (enc f)
+
+instance (enc : String → Str) (c : TCfg) : Decidable (EncOK enc c) :=
+  decidable_of_iff
+    ((∀ a ∈ c.strings, ∀ b ∈ c.strings, enc a = enc b → a = b) ∧ enc "inet" = Policy.inet ∧
+      enc "inet6" = Policy.inet6 ∧ ∀ f ∈ c.families, enc (trim f) = Policy.trimB (enc f))
+    ⟨fun ⟨a, b, c, d⟩ => ⟨a, b, c, d⟩, fun h => ⟨h.inj, h.inet, h.inet6, h.trim⟩⟩
+
+/-- names of a result as byte strings -/
+def encNames (enc : String → Str) (l : List (String × Policy.Installed)) : List (Str × Policy.Installed) :=
+  l.map fun x => (enc x.1, x.2)
+
+end Xml
